@@ -136,7 +136,7 @@ func cmdCheck(args []string) int {
 		if o.Tier == "thorough" {
 			o.Timeout = 900
 		} else {
-			o.Timeout = 120
+			o.Timeout = 300 // slower or loaded machines: a query that needs 40 s here must not become INCONCLUSIVE there
 		}
 	}
 	t0 := time.Now()
